@@ -202,7 +202,7 @@ func (p *c13Run) opObsCancelFail(id int, mode string) {
 		cancel()
 		p.nextR++
 		p.ev(true, fmt.Sprintf("LmCancel %d", p.nextR))
-		p.ev(true, fmt.Sprintf("LmArrive %d %d", p.nextR, kObs))
+		p.ev(true, fmt.Sprintf("LmArrive %d %d", p.nextR, reg.k))
 		p.lmSettle()
 		err, ok := p.call(func() error { return reg.obs.Cancel(ctx) })
 		if ok {
@@ -210,7 +210,7 @@ func (p *c13Run) opObsCancelFail(id int, mode string) {
 		}
 		return
 	}
-	r := p.limIn(kObs)
+	r := p.limIn(reg.k)
 	p.ev(true, fmt.Sprintf("BwPutS %d", reg.tokZ))
 	p.ev(true, fmt.Sprintf("RxSend %d", r))
 	ctx, cancel := context.WithCancel(context.Background())
